@@ -177,7 +177,41 @@ for _n in (1, 2):
                     _REF_STMTS[(_n, _hs, _wi, _ak, _pk)] = fmt(_stmts(_n, _hs, _wi, _ak, _pk), "sql")
 
 
-def c_json(ncols: int, has_schema: bool, with_index: bool, alter_kind: int, group: bool) -> bool:
+UNKNOWN_KEYS = ["row_format", "avg_row_length", "zz_option", "checksum", "key_block_size", "comment_x"]
+
+
+def c_props_order(k1: int, k2: int, k3: int) -> bool:
+    """
+    C14 / C10: options the mode has no field for are reported under table_properties in the
+    order they were written (never in a set / hash order).
+
+    pre: 0 <= k1 < 6 and 0 <= k2 < 6 and 0 <= k3 < 6
+    pre: k1 != k2 and k2 != k3 and k1 != k3
+    post: _
+    """
+    stmt = table_stmt(None, "t", [column("a")])
+    for k in (k1, k2, k3):
+        stmt[UNKNOWN_KEYS[k]] = "v"
+    out = fmt([stmt], MODE)
+    return list(out[0].get("table_properties", {})) == [UNKNOWN_KEYS[k1], UNKNOWN_KEYS[k2], UNKNOWN_KEYS[k3]]
+
+
+def api_c_props_order(k1, k2, k3):
+    import json as _json
+    import os
+    import subprocess
+    import sys
+    ddl = "CREATE TABLE t (a int) " + " ".join(f"{UNKNOWN_KEYS[k].upper()}=v" for k in (k1, k2, k3)) + ";"
+    outs = []
+    for seed in ("0", "1", "2", "3"):
+        env = dict(os.environ, PYTHONHASHSEED=seed)
+        r = subprocess.run([sys.executable, "-c", "import sys,json\nfrom simple_ddl_parser import DDLParser\nprint(DDLParser(sys.argv[1]).run(output_mode=sys.argv[2], json_dump=True))", ddl, MODE],
+                           env=env, capture_output=True, text=True)
+        outs.append(r.stdout.strip())
+    return {"ddl": ddl, "mode": MODE, "json_per_hash_seed": outs, "reproduced": len(set(outs)) > 1}
+
+
+def c_json(ncols: int, has_schema: bool, with_index: bool, alter_kind: int, group: bool, with_drop: bool) -> bool:
     """
     run(json_dump=True) returns exactly the JSON encoding of what run() returns, which is
     JSON-serialisable and has the documented shape (parse_data stubbed; real run/Output).
@@ -191,6 +225,8 @@ def c_json(ncols: int, has_schema: bool, with_index: bool, alter_kind: int, grou
     from copy import deepcopy
     from harness._common import PARSER
     stmts = _stmts(ncols, has_schema, with_index, alter_kind, False)
+    if with_drop:
+        stmts.append({"schema": "s", "table_name": "old"})  # what DROP TABLE s.old yields: reported as a table entry
     PARSER.parse_data = lambda: deepcopy(stmts)
     try:
         plain = PARSER.run(output_mode=MODE, group_by_type=group)
@@ -200,19 +236,19 @@ def c_json(ncols: int, has_schema: bool, with_index: bool, alter_kind: int, grou
     if not isinstance(dumped, str) or not jsonable(plain):
         return False
     tables = plain["tables"] if group else [e for e in plain if "table_name" in e]
-    if len(tables) != 1 or not _shape_ok(tables[0]):
+    if len(tables) != (2 if with_drop else 1) or not all(_shape_ok(t) for t in tables):
         return False
     return dumped == json.dumps(plain) and json.loads(dumped) == plain
 
 
-def api_c_json(ncols, has_schema, with_index, alter_kind, group):
+def api_c_json(ncols, has_schema, with_index, alter_kind, group, with_drop):
     import json
     from simple_ddl_parser import DDLParser
-    ddl = _ddl(ncols, has_schema, with_index, alter_kind, False)
+    ddl = _ddl(ncols, has_schema, with_index, alter_kind, False) + ("DROP TABLE s.old;\n" if with_drop else "")
     plain = DDLParser(ddl).run(output_mode=MODE, group_by_type=group)
     dumped = DDLParser(ddl).run(output_mode=MODE, group_by_type=group, json_dump=True)
     tables = plain["tables"] if group else [e for e in plain if "table_name" in e]
-    ok = isinstance(dumped, str) and dumped == json.dumps(plain) and len(tables) == 1 and _shape_ok(tables[0])
+    ok = isinstance(dumped, str) and dumped == json.dumps(plain) and len(tables) == (2 if with_drop else 1) and all(_shape_ok(t) for t in tables)
     return {"ddl": ddl, "mode": MODE, "got": dumped, "expected": json.dumps(plain), "reproduced": not ok}
 
 
